@@ -248,4 +248,50 @@ def specRun {α : Type} : Prog α → LSt → α × LSt
 def InProtocol {α : Type} (p : Prog α) (input stopPat : List Byte) : Prop :=
   (specRun p (LSt.init input stopPat)).2.ok = true
 
+/-! ### the same, with the two places where the Go code panics under every schedule alike
+
+  `zshNumRange` once the cursor is past the buffer (`p.r == runeEOF`: `p.bs[p.bsp:]` is out of range) and
+  `endLit` with fewer literal bytes than the current rune is wide (`p.litBs[:len(p.litBs)-p.w]`) panic
+  whatever the schedule: they are outcomes, not schedule dependence. -/
+
+inductive Out (α : Type) where
+  | done (v : α) (a : LSt)
+  | panic (a : LSt)          -- the state in which the panicking primitive was called
+
+def Out.ok {α : Type} : Out α → Bool
+  | .done _ a => a.ok
+  | .panic a => a.ok
+
+def Out.result {α : Type} : Out α → Option α
+  | .done v _ => some v
+  | .panic _ => none
+
+def specRunF {α : Type} : Prog α → LSt → Out α
+  | .ret x, a => .done x a
+  | .rune k, a => let (r, a) := a.rune; specRunF (k r) a
+  | .peek k, a => let (b, a) := a.peek; specRunF (k b) a
+  | .peekTwo k, a => let (x, y, a) := a.peekTwo; specRunF (k x y) a
+  | .zshNum k, a =>
+    if a.r == runeEOF && !a.halted then .panic a
+    else let (b, a) := a.zshNum; specRunF (k b) a
+  | .stopAt r k, a => let (b, a) := a.stopAt r; specRunF (k b) a
+  | .newLit r k, a => specRunF k (a.newLit r)
+  | .endLit k, a =>
+    if !(a.r == runeEOF || a.r == escNewl) && decide (a.w > (a.lit.getD []).length) then .panic a
+    else let (l, a) := a.endLit; specRunF (k l) a
+  | .pos k, a => let ((o, l, c), a) := a.pos; specRunF (k o l c) a
+  | .setBquotes o d k, a => specRunF k { a with openBq := o, openBqDbl := d }
+  | .getRW k, a => specRunF (k a.r a.w) a
+  | .lastBq k, a => specRunF (k a.lastBqEsc) a
+  | .litGet k, a => specRunF (k (a.lit.map List.reverse)) a
+  | .litAppend bs k, a => specRunF k { a with lit := some (bs.reverse ++ a.lit.getD []) }
+  | .litDrop k, a => specRunF k { a with lit := none }
+  | .errPass k, a => specRunF k (a.errPass .client)
+  | .errGet k, a => specRunF (k a.err.isSome) a
+
+/-- the client never (a) reads on after the stop-word test fired, (b) asks for `nextPos` after an
+    error, (c) gets a positive `zshNumRange` answer that is not decided by the first 64 bytes -/
+def Admissible {α : Type} (p : Prog α) (input stopPat : List Byte) : Prop :=
+  (specRunF p (LSt.init input stopPat)).ok = true
+
 end ShVerif.C07
